@@ -29,6 +29,7 @@ func profile() sim.Profile {
 	pf.PTopology = 0
 	pf.MaxCycles = 5
 	pf.Deep = true
+	pf.DeeperTrees = true
 	return pf
 }
 
